@@ -143,9 +143,9 @@ pub(crate) mod kani_verif {
     }
     // @h name=c13_inc_l1 props=C13,C05,C03 tier=quick kind=proved funcs=CompressedUsedLeafsIndexes::increment contract="kani contract: c<last => Ok,c+1; else Err,unchanged; 1 level"
     inc_harness!(c13_inc_l1, 1);
-    // @h name=c13_inc_l2 props=C13,C05,C03 tier=quick kind=proved funcs=CompressedUsedLeafsIndexes::increment contract="same, 2 levels"
+    // @h name=c13_inc_l2 props=C13,C05,C03,C16 tier=quick kind=proved funcs=CompressedUsedLeafsIndexes::increment contract="same, 2 levels"
     inc_harness!(c13_inc_l2, 2);
-    // @h name=c13_inc_l3 props=C13,C05,C03 tier=quick kind=proved funcs=CompressedUsedLeafsIndexes::increment contract="same, 3 levels (covers total height 64..75)"
+    // @h name=c13_inc_l3 props=C13,C05,C03,C16 tier=quick kind=proved funcs=CompressedUsedLeafsIndexes::increment contract="same, 3 levels (covers total height 64..75)"
     inc_harness!(c13_inc_l3, 3);
     // @h name=c13_inc_l4 props=C13,C05,C03 tier=thorough kind=proved funcs=CompressedUsedLeafsIndexes::increment contract="same, 4 levels"
     inc_harness!(c13_inc_l4, 4);
@@ -392,4 +392,37 @@ pub(crate) mod kani_verif {
     rec_harness!(c14_blob_l1_L1, check_blob::<1>(), 36);
     // @h name=c14_blob_l2_L2small props=C14 tier=thorough kind=proved cfg=L2small funcs=ReferenceImplPrivateKey::to_binary_representation;ReferenceImplPrivateKey::from_binary_representation;CompressedParameterSet::to contract="build with limits heights (10,5), W (4,8): 2-level keys within the limits"
     rec_harness!(c14_blob_l2_L2small, check_blob::<2>(), 36);
+
+    // ---- parameter byte packing alone (cheap): all level counts in the quick tier
+    fn check_param_roundtrip<const L: usize>() {
+        type HH = Sha256_128;
+        let (codes, hs) = any_heights::<L>(true);
+        let mut wc = [0u8; L];
+        let mut i = 0;
+        while i < L {
+            wc[i] = any_lmots_code();
+            kani::assume(hs[i] as usize <= crate::constants::TREE_HEIGHTS[i]);
+            kani::assume(spec_w_of_lmots_code(wc[i]).unwrap() as usize >= crate::constants::WINTERNITZ_PARAMETERS[i]);
+            i += 1;
+        }
+        let params = param_list::<HH>(&codes, &wc);
+        let c = CompressedParameterSet::from(params.as_slice()).unwrap();
+        i = 0;
+        while i < MAX_ALLOWED_HSS_LEVELS {
+            assert!(c.0[i] == if i < L { (codes[i] << 4) | wc[i] } else { 0xff }, "height code in the high nibble, Winternitz code in the low nibble, 0xff padding");
+            i += 1;
+        }
+        let back = c.to::<HH>().unwrap();
+        assert!(back.len() == L, "all L levels are decoded");
+        i = 0;
+        while i < L {
+            assert!(back[i] == params[i], "decoded level i equals the original");
+            i += 1;
+        }
+        kani::cover!(true, "reachable");
+    }
+    // @h name=c08_params_roundtrip_l8 props=C08,C13,C01 tier=quick kind=proved cfg=default funcs=CompressedParameterSet::from;CompressedParameterSet::to contract="to(from(list)) == list and byte layout, every 8-level list"
+    rec_harness!(c08_params_roundtrip_l8, check_param_roundtrip::<8>(), 36);
+    // @h name=c08_params_roundtrip_l5 props=C08,C13,C01 tier=quick kind=proved cfg=default funcs=CompressedParameterSet::from;CompressedParameterSet::to contract="same, every 5-level list"
+    rec_harness!(c08_params_roundtrip_l5, check_param_roundtrip::<5>(), 36);
 }
